@@ -344,6 +344,36 @@ def c084(ctx):
         ctx.check(R, f, "to-trash", path_class(f, t["args"][0]) == {"SST_FILE"} and path_class(f, t["args"][1]) == {"TRASH_SST"},
                   "orphans are renamed SST_FILE -> TRASH_SST", "orphans are not moved to TRASH_SST", pt=pt)
     ctx.check(R, f, "no-unlink", not P.call_points(f, DEL), "the orphan scan unlinks nothing", "the orphan scan unlinks files")
+    # the scan folds fragments in the order list_mani_fragments returns them: rm X in an older fragment is cancelled by add X in a
+    # newer one only if older fragments come first, i.e. the fragments are ordered by their backup *number* (MANIFEST.10 after
+    # MANIFEST.9), with the live MANIFEST last
+    lf = ctx.fn(R, "lsmtk::verifier::list_mani_fragments")
+    if lf:
+        lists = ctx.calls(R, f, r"lsmtk::verifier::list_mani_fragments$")
+        sorts = [p_ for p_ in P.call_points(lf, r"(alloc|core)::slice::(<impl \[T\]>::)?sort(_unstable)?(_by_key|_by|_by_cached_key)?$")]
+        ctx.check(R, lf, "fragments-sorted", bool(sorts), "list_mani_fragments sorts the fragments", "list_mani_fragments no longer sorts the fragments it returns")
+        for p_ in sorts:
+            t = P.term_at(lf, p_)
+            ga = (t.get("ga") or "")
+            numeric = bool(re.match(r"^\[(u64|u32|usize|u128|\(u64,.*)", ga))
+            by_number = False
+            for a in t["args"][1:]:
+                for s_ in P.origins(lf, a):
+                    if s_["k"] == "agg" and s_.get("closure"):
+                        g = ctx.prog.fns.get(s_["closure"]) or next((x for x in ctx.prog.fns.values() if x.skey == strip_generics(s_["closure"])), None)
+                        if g is not None and any((callee_skey(t2) or "").endswith("mani::extract_backup") for _b2, t2 in g.calls()):
+                            by_number = True
+                if a.get("k") == "const" and "extract_backup" in str(a["c"].get("fn", "")):
+                    by_number = True
+            ctx.check(R, lf, "fragments-numeric-order", numeric or by_number,
+                      "the fragments are ordered by their backup number (%s)" % ("numbers from extract_backup are sorted" if numeric else "sort key is extract_backup"),
+                      "the fragments are sorted as %s, not by backup number: MANIFEST.10 sorts before MANIFEST.2, so with ten or more fragments an older "
+                      "`rm X` is folded after the newer `add X` and a listed file is moved to trash" % ga, pt=p_)
+        mf = P.call_points(lf, r"mani::MANIFEST$")
+        pushes = [p_ for p_ in P.call_points(lf, r"Vec.*::push$") if any(c.endswith("mani::MANIFEST") for c in P.origin_calls(lf, P.term_at(lf, p_)["args"][1]))]
+        ctx.check(R, lf, "live-manifest-last", bool(pushes) and all(not P.order(lf, sorts, [p_]) for p_ in pushes) and
+                  all(P.reach(lf, P.after(lf, p_), sorts) is None for p_ in pushes),
+                  "the live MANIFEST is appended after the sort", "the live MANIFEST is not appended last")
 
 
 def escape_check(ctx, R, f, ty_rx, what):
